@@ -151,7 +151,7 @@ def sha16(text):
     return hashlib.sha1(text.encode('utf-8')).hexdigest()[:16]
 
 
-def run_cli(argv, files, answers, default_answer, cwd, timeout=60, extra_env=None):
+def run_cli(argv, files, answers, default_answer, cwd, timeout=300, extra_env=None):
     """files: {name: text or bytes}; answers: {plain_text: bytes}; returns (rc, stdout bytes, stderr text, lt arg lines)"""
     os.makedirs(cwd, exist_ok=True)
     for old in os.listdir(cwd):
